@@ -40,3 +40,15 @@ claim(
     "Seeded random histories (<=10/16 ops: overlays entered/left, generators created, advanced, sent to, closed, dropped+gc, zipped, exhausted, in LIFO and non-LIFO completion orders, driver at top level or inside an instrumented outer()) are run against the real code; after every step HandlerCollection.current must equal the model's handler list by identity, and each driver call of g must fire exactly the selectors that do not require the generator as ancestor. Held-on-observed.",
     "Events of the generators' own inner calls are not asserted; overlays are entered/left LIFO by the driver; generators use plain `yield` (no user-level `yield from`).",
 )
+claim(
+    "C17",
+    "history monitor with completion counters: every pipeline stage subscribed through on_next/on_completed/on_error counters and compared after every step with a reference computed from the events delivered during the active period",
+    "Seeded random histories (<=14/22 ops over two probes: attach 12 kinds of reducing / non-reducing stages before, during and after activation, activate via with/global/child, calls inside and outside the active period, deactivate normally/by exception/explicitly, re-activation attempts through root and child) against the real giving/ptera pipeline; exactly-once completion, silence outside the active period, late-attachment cut-off, and 'refused re-activation changes nothing' are asserted after every step. Held-on-observed.",
+    "Event reference hand-derived for a 5-line program; reductions over an empty period only required to terminate once; double deactivation not generated.",
+)
+claim(
+    "C14",
+    "history monitor over generated modules: reference resolution and by-name/by-reference stream equality checked after every step against a shadow of the active set",
+    "Generated modules with every placement (module level, methods, nested classes, static methods, factory closures 1-2 deep, decorated functions/methods) x random histories of activate-by-name / activate-by-reference / deactivate in any order / call / resolve; select(refstring(fn)) must be the very function and streams by reference must equal streams by name, before, during and after probing. Held-on-observed.",
+    "One closure per factory; references of decorated functions denote the undecorated def.",
+)
